@@ -30,7 +30,7 @@ ASSUMPTIONS = [
     "burst_* bindings of QueuePolicyStorage are evaluation-thread confined (written in start/stop, read in make_burst)",
     "a lambda inherits the lock state of its definition point (wait predicates and local helpers)",
 ]
-DECIDED = ["a lock discipline", "b admission table", "c FIFO", "d wake protocol", "d2 executor tables", "e one drain per cycle",
+DECIDED = ["a lock discipline", "b admission table", "b2 conflating pending flag", "h strictly increasing delivery cycles", "c FIFO", "d wake protocol", "d2 executor tables", "e one drain per cycle",
            "f stop protocol", "g one value per cycle"]
 NOT_DECIDED = ["liveness", "conflating policy content"]
 
@@ -202,6 +202,35 @@ def check(run: Run) -> None:
                                                           "NOTIFY": r"capacity_available\.notify_(one|all)",
                                                           "OTHERMUT": r"values\.(back|pop_back|push_back|push_front|clear)"},
              invalidate={r"values\.pop_front": "Q"}, what="QueuePolicyStorage::try_pop")
+
+    # ---- b2. conflating policy keeps an accepted value pending until it is drained --------------------
+    with run.obligation("C16.b2", "K1", "ConflatingPolicyStorage::try_send: the pending flag is monotone until drained (pending' = pending or "
+                        "the accumulator changed), wake_required iff it became pending; take_accumulated hands over iff pending and clears it"):
+        fa = R.fn(run, PUSH, "try_send", cls="ConflatingPolicyStorage")
+        roles = [Role("ACC", "bool", r"accepting"), Role("PENDING", "bool", r"pending", lvalue=True),
+                 Role("MOD", "bool", r"accumulator\.view\(.*\)\.modified\(\)")]
+
+        def spec_c(v):
+            if not v.b("ACC"):
+                return Expect(calls=[], ret=("tuple", "", ()))
+            was = v.b("PENDING")
+            now = was or v.b("MOD")
+            return Expect(calls=[("APPLY", (ANY, ANY))], stores={"PENDING": now}, ret=("tuple", "", (True, now and not was)), throws="may")
+        R.k1(run, "C16.b2", fa, roles, spec_c, role_calls={"APPLY": r"apply_delta"}, what="ConflatingPolicyStorage::try_send")
+        fa = R.fn(run, PUSH, "take_accumulated", cls="ConflatingPolicyStorage")
+        roles = [Role("PENDING", "bool", r"pending", lvalue=True)]
+        R.k1(run, "C16.b2", fa, roles, lambda v: Expect(stores={"PENDING": False}) if v.b("PENDING") else Expect(ret="std::nullopt"),
+             what="ConflatingPolicyStorage::take_accumulated")
+        fa = R.fn(run, PUSH, "send_blocking", cls="ConflatingPolicyStorage")
+        cs = R.calls(fa, "try_send")
+        if len(cs) != 1:
+            run.finding("C16.b2", "Conflating::send_blocking", "conflating send_blocking must forward to try_send", loc=PUSH)
+
+    # ---- h. deliveries get strictly increasing cycle times (shared with C17.a) -------------------------
+    with run.obligation("C16.h", "K6", "real-time cycle time is min(target, max(wall, NOW+MIN_TD)): consecutive push deliveries get strictly "
+                        "increasing evaluation times (shared table with C17.a)"):
+        from . import c17
+        c17.advance_realtime_table(run, "C16.h")
 
     # ---- c. FIFO ---------------------------------------------------------------------------------------
     with run.obligation("C16.c", "K4", "the only mutators of QueuePolicyStorage::values are push_back (senders), front/pop_front "
@@ -475,5 +504,8 @@ VARIANTS = [
     {"id": "f-enter-ignores-closing", "expect": "C16.f", "edits": [{"file": PUSH, "find": "if (closing_ || storage_ == nullptr)", "replace": "if (storage_ == nullptr)"}]},
     {"id": "g-drain-all", "expect": "C16.g", "edits": [{"file": PUSH, "find": "            apply_delta(output, item->value.view());\n            return item->more_pending;", "replace": "            apply_delta(output, item->value.view());\n            return false;"}]},
     {"id": "g-burst-uses-queue-emit", "expect": "C16.g", "edits": [{"file": PUSH, "find": "                .emit_next_impl = &burst_policy_emit_next,", "replace": "                .emit_next_impl = &queue_policy_emit_next,"}]},
+    {"id": "b2-pending-overwritten", "expect": "C16.b2", "edits": [{"file": PUSH, "find": "pending = pending || accumulator.view(mutation_time).modified();", "replace": "pending = accumulator.view(mutation_time).modified();"}]},
+    {"id": "b2-wake-always", "expect": "C16.b2", "edits": [{"file": PUSH, "find": ".wake_required = pending && !was_pending,", "replace": ".wake_required = !was_pending,"}]},
+    {"id": "h-floor-lost", "expect": "C16.h", "edits": [{"file": EXEC, "find": "std::max(wall_now, next_cycle);", "replace": "std::max(wall_now, state.evaluation_time);"}]},
     {"id": "b-twin-demorgan", "expect": None, "edits": [{"file": PUSH, "find": "return max_pending != 0 && values.size() >= max_pending;", "replace": "return !(max_pending == 0 || values.size() < max_pending);"}]},
 ]
